@@ -548,7 +548,7 @@ class LimitedStream(io.RawIOBase):
                     return 0
 
                 if out_size:
-                    b[:out_size] = temp_b
+                    b[:out_size] = temp_b[:out_size]
         else:
             # WSGI requires that stream.read is available.
             try:
